@@ -44,6 +44,7 @@ type Join struct {
 // Input is one scenario step.
 type Input struct {
 	Op   string   `json:"op"`
+	R    int      `json:"r"` // realm index (multi-realm scenarios)
 	S    string   `json:"s"`
 	Req  int      `json:"req"`
 	URI  []string `json:"uri"`
@@ -103,6 +104,10 @@ type Cfg struct {
 	Users    []User    `json:"users"`
 	Authz    []Rule    `json:"authz"`
 	Lauthz   bool      `json:"lauthz"`
+	// multi-realm scenarios only: Late = added by an "addrealm" step,
+	// Template = created from the router's realm template by the first HELLO
+	Late     bool `json:"late"`
+	Template bool `json:"template"`
 }
 
 // Rule is one authorizer rule: message type, sender class ("any", "local",
@@ -118,6 +123,9 @@ type Scenario struct {
 	ID    string  `json:"id"`
 	Cfg   Cfg     `json:"cfg"`
 	Steps []Input `json:"steps"`
+	// Realms, if not empty, replaces Cfg: several realms in one router; every
+	// step names its realm by index (Input.R).
+	Realms []Cfg `json:"realms"`
 	// Epilogue: after the steps every live session leaves, the clock is
 	// advanced by two hours and a snapshot is taken (C05).
 	Epilogue bool `json:"epilogue"`
